@@ -537,14 +537,14 @@ func splitTop(s string) []string {
 	return out
 }
 
-var reSpecSig = regexp.MustCompile(`^(rec\s+|opaque\s+|abstract\s+)?([A-Za-z_][A-Za-z0-9_]*)\s*\(([^)]*)\)\s*([A-Za-z0-9_.]+)\s*(=\s*(.*))?$`)
+var reSpecSig = regexp.MustCompile(`^(rec\s+|opaque\s+|abstract\s+rec\s+|abstract\s+)?([A-Za-z_][A-Za-z0-9_]*)\s*\(([^)]*)\)\s*([A-Za-z0-9_.]+)\s*(=\s*(.*))?$`)
 
 func (e *Engine) parseSpecFunc(s string, pkg *ssa.Package, path string) error {
 	m := reSpecSig.FindStringSubmatch(s)
 	if m == nil {
 		return fmt.Errorf("%s: bad spec function %q", path, s)
 	}
-	sf := &SpecFunc{Name: m[2], Recursive: strings.HasPrefix(m[1], "rec"), Opaque: strings.HasPrefix(m[1], "opaque") || strings.HasPrefix(m[1], "abstract"), Abstract: strings.HasPrefix(m[1], "abstract"), Pkg: pkg, File: path}
+	sf := &SpecFunc{Name: m[2], Recursive: strings.HasPrefix(m[1], "rec") || strings.Contains(m[1], " rec"), Opaque: strings.HasPrefix(m[1], "opaque") || strings.HasPrefix(m[1], "abstract"), Abstract: strings.HasPrefix(m[1], "abstract"), Pkg: pkg, File: path}
 	if strings.TrimSpace(m[3]) != "" {
 		for _, p := range strings.Split(m[3], ",") {
 			f := strings.Fields(p)
@@ -651,6 +651,12 @@ func (u *Unit) specPreamble(extraAxioms []string) string {
 				}
 				if body.T.K == KBV && sf.Result.K == KInt {
 					body = u.toInt(body)
+				}
+				if sf.Opaque && sf.Recursive && !u.concrete && u.usedLemmas[n+".def"] {
+					// an abstract recursive function whose definition is asked for: the real definition
+					defs[n] = fmt.Sprintf("(define-fun-rec %s (%s) %s %s)", n, strings.Join(ps, " "), u.tc.smt(sf.Result), body.S)
+					changed = true
+					continue
 				}
 				if sf.Opaque && !u.concrete {
 					var srt, as []string
